@@ -90,9 +90,11 @@ where
     /// Fails if the sample is out of range of the histogram.
     #[inline]
     pub fn find(&self, x: f64) -> Result<usize, SampleOutOfRangeError> {
-        // We made sure our ranges are valid at construction, so we can
-        // safely unwrap.
-        match self.range.binary_search_by(|p| p.partial_cmp(&x).unwrap()) {
+        // We made sure our ranges are valid at construction, so only a NaN
+        // sample is incomparable. It is not contained in any bin.
+        match self.range.binary_search_by(|p| {
+            p.partial_cmp(&x).unwrap_or(::core::cmp::Ordering::Greater)
+        }) {
             Ok(i) if i < LEN => Ok(i),
             Err(i) if i > 0 && i < LEN + 1 => Ok(i - 1),
             _ => Err(SampleOutOfRangeError),
